@@ -57,9 +57,12 @@ Inductive levent :=
 | EProc (id : nat) (panicked : bool)      (* the processor took row id *)
 | EEnq (id : nat)                         (* a producer put row id into the data channel *)
 | EDropIn (id : nat)                      (* a producer gave up on row id *)
-(* the next two are only produced by the Go harness (never by the model) *)
+(* the next three are only produced by the Go harness (never by the model) *)
 | ETimeout                                (* some call of the scenario did not return within the harness's patience *)
-| EGoroutines (base final : nat).         (* goroutine count before New / after the last Stop returned and the callers were joined *)
+| EGoroutines (base final : nat)          (* goroutine count before New / after the last Stop returned and the callers were joined *)
+| EStopOver (t : nat).                    (* Stop call t has been running for longer than its grace period plus the harness's margin:
+                                             it waits for something other than the grace-bounded join (in the model every own step
+                                             of a Stop caller is enabled, the join through its grace branch: Props C18_stop_never_waits) *)
 
 (* straight-line code of callSinksAsync / invokeSinksInline / AddSink on the current goroutine *)
 Inductive linstr :=
